@@ -211,6 +211,64 @@ def run(ctx):
         ctx.count(f"pattern:{oc}")
         if oc == "ok":
             ctx.disagree("refuse:malformed-rdm-pattern", f"rdm('{pat}') was answered", {"pattern": pat})
+    # ---- two-term generators c T + c' T^dagger of the closed-form single-term evolution: accepted iff c' = conj(c)
+    #      (Hermitian), whatever the numbers of alpha / beta creators and annihilators in T (double spin flips, three
+    #      alpha operators and one beta, ...); a refusal leaves the operand intact, in place or not -------------------
+    from openfermion import FermionOperator as _FO
+    for case in range(60 if quick else 600):
+        norb = rng.choice([2, 3, 3])
+        nso = 2 * norb
+        r_ = rng.choice([1, 2, 2, 3]) if norb == 3 else rng.choice([1, 2])
+        modes = rng.sample(range(nso), 2 * r_)
+        cre, ann = modes[:r_], modes[r_:]
+        dsz = sum(1 if m % 2 == 0 else -1 for m in cre) - sum(1 if m % 2 == 0 else -1 for m in ann)
+        nel = rng.randint(r_, nso - r_)
+        if dsz == 0:
+            na_min = max(sum(1 for m in ann if m % 2 == 0), nel - norb)
+            na_max = min(norb, nel - sum(1 for m in ann if m % 2 == 1))
+            if na_min > na_max:
+                continue
+            na = rng.randint(na_min, na_max)
+            wv = fqe.Wavefunction([[nel, 2 * na - nel, norb]])
+            kind = "single"
+        else:
+            if nel > 2 * norb:
+                continue
+            wv = fqe.get_number_conserving_wavefunction(nel, norb)
+            kind = "spinbroken"
+        U.random_fill(wv, rng, zero_p=0.0)
+        c = complex(rng.choice([1, 2, -1]), rng.choice([0, 1, -2])) / 2
+        flavour = rng.choice(["hermitian", "hermitian", "antihermitian", "scaled", "rotated"])
+        c2 = {"hermitian": c.conjugate(), "antihermitian": -c.conjugate(), "scaled": 1.5 * c.conjugate(),
+              "rotated": 1j * c.conjugate()}[flavour]
+        if c2 == c.conjugate():
+            flavour = "hermitian"
+        T = tuple((m, 1) for m in cre) + tuple((m, 0) for m in ann)
+        Td = tuple((m, 1 - d_) for m, d_ in reversed(T))
+        gen = _FO(T, c) + _FO(Td, c2)
+        desc = {"norb": norb, "T": [list(x) for x in T], "c": [c.real, c.imag], "c2": [c2.real, c2.imag], "flavour": flavour,
+                "wfn": kind, "sectors": [list(map(int, k)) for k in sorted(wv.sectors())]}
+        try:
+            hg = fqe.get_sparse_hamiltonian(gen, conserve_spin=(dsz == 0))
+        except Exception as exc:
+            ctx.count(f"individual:construct-raises:{type(exc).__name__}")
+            continue
+        for inplace in (False, True):
+            tgt = copy.deepcopy(wv)
+            before = wsnap(tgt)
+            oc, val = outcome(lambda: tgt.time_evolve(0.3, hg, inplace=inplace))
+            ctx.case(("individual-hermiticity", case, inplace))
+            ctx.count(f"individual:{flavour}:{kind}:{'ok' if oc == 'ok' else 'refused'}")
+            if flavour == "hermitian":
+                if oc != "ok":
+                    ctx.disagree("refuse:hermitian-individual-generator-refused",
+                                 f"time_evolve(inplace={inplace}) refused the Hermitian generator c T + conj(c) T^dagger with {oc}: {val}", desc)
+            else:
+                if oc == "ok":
+                    ctx.disagree("refuse:nonhermitian-individual-generator-accepted",
+                                 f"time_evolve(inplace={inplace}) answered for the non-Hermitian generator c T + c' T^dagger, c' != conj(c)", desc)
+                elif wsnap(tgt) != before:
+                    ctx.disagree("refuse:operand-changed:individual-generator", f"operand changed by the refused time_evolve(inplace={inplace})", desc)
     # ---- operator indices at and beyond the orbital range, sparse (<= 2 terms) and dense (> 2 terms) routes ----
     import fqe as _fqe_mod
     for nb_ in (2, 3):
